@@ -225,7 +225,7 @@ def lattice(ctx, far):
 
 def by_cell(ctx):
     rng = ctx.rng
-    spec = _spec(ctx)
+    spec = _spec(ctx, far=(ctx.i % 16 == 2))
     nd, n = spec.nd, spec.n
     region = spec.region()
     edges = np.asarray(region.edges, dtype=float)
@@ -241,6 +241,15 @@ def by_cell(ctx):
                   spec=spec.describe())
         ctx.check("C01.bycell.cell", np.all(np.abs(mesh.cell - cell) <= 1e-12 * cell),
                   got=mesh.cell, expected=cell)
+    # the *nominal* cell size the corners were built from (pmax = pmin + n * cell, rounded):
+    # the edges then differ from n * cell by the rounding of the corner coordinates, which
+    # is all a user who writes p1, p2 and cell as decimal numbers can offer
+    ok, mesh = ctx.expect_ok("C01.bycell.commensurate_accepted",
+                             lambda: df.Mesh(region=region, cell=pickarg(rng, spec.cell, nd)),
+                             what={"cell": spec.cell, "nominal": True, "spec": spec.describe()})
+    if ok:
+        ctx.check("C01.bycell.n", np.array_equal(mesh.n, n), got=mesh.n, expected=n,
+                  nominal=True, spec=spec.describe())
     # p1/p2 form
     p1, p2 = spec.corners()
     ok, mesh = ctx.expect_ok("C01.bycell.commensurate_accepted",
